@@ -83,7 +83,7 @@ def select(prop):
     # property and would alarm on changes under which it still holds
     direct = any(prop in c.props and "#" in q for q, c in CT.REGISTRY.items())
     for q, c in CT.REGISTRY.items():
-        if prop in c.props and (not direct or "#" in q):
+        if prop in c.props and (not direct or "#" in q or prop in getattr(c, "also_direct", ())):
             for case in c.cases:
                 items.append(("contract", q, case.label))
     for n, l in lemma.LEMMAS.items():
